@@ -163,6 +163,25 @@ def handle (op : String) (j : Json) : Except String Json := do
         ("promises", Json.arr (ps.map (fun (p, i) => Json.arr #[jstr p, Json.num i])).toArray),
         ("steps", Json.num (countSteps dflt (bound + 1) 0 s0)),
         ("bound", Json.num bound)])
+  | "apply2" =>
+    -- the same document twice (second copy with its own creation ids): C13 idempotence
+    let dflt ← pairs (fun v => do let s ← v.getStr?; pure s.toList) (← arrOf j "dflt")
+    let g ← graphIn (← j.getObjVal? "graph")
+    let doc ← (← arrOf j "doc").mapM instr
+    let doc2 ← (← arrOf j "doc2").mapM instr
+    match apply dflt g doc with
+    | .error e => pure (Json.mkObj [("first", errOut e)])
+    | .ok (g1, ps1) =>
+      let first := Json.mkObj [("graph", graphOut g1),
+        ("promises", Json.arr (ps1.map (fun (p, i) => Json.arr #[jstr p, Json.num i])).toArray)]
+      match apply dflt g1 doc2 with
+      | .error e => pure (Json.mkObj [("first", first), ("second", errOut e)])
+      | .ok (g2, ps2) =>
+        pure (Json.mkObj [("first", first),
+          ("second", Json.mkObj [("graph", graphOut g2),
+            ("promises", Json.arr (ps2.map (fun (p, i) => Json.arr #[jstr p, Json.num i])).toArray)]),
+          ("created", Json.num (g2.objs.length - g1.objs.length)),
+          ("same", Json.bool (decide (g2 = g1)))])
   | _ => throw s!"unknown op {op}"
 
 end Capella.Driver.Decl
